@@ -11,6 +11,9 @@
        both events; obs = a0 (entry snapshot of invocation 1), a1 (what invocation 1's line looks like
        after invocation 2 has scribbled over its own), b (entry snapshot of invocation 2):
        a0 = a1 = ParseLine(line), b = ParseLine(line 2).
+     mode "burst" (field 0 and fields 7.. = >= 300 distinct lines of the verb, written in one go; nbg
+       background handlers): obs = per handler its entry snapshots sorted by Raw (= sending order);
+       the j-th snapshot of every handler = ParseLine(j-th line), each line once per handler.
    OBS   = one record per handler in the order f0.. b0.. late:
      [who; nick; ident; host; src; cmd; raw; dec nargs; arg...; "nil" | dec ntags; key; value; ...]
      — the deep snapshot the handler took of its *Line BEFORE scribbling over it (tags sorted by key).
@@ -52,7 +55,35 @@ Definition expected2 (i : list bytes) : option lval :=
   | _ => None
   end.
 Definition who_a0 : bytes := [97;48]%N.  Definition who_a1 : bytes := [97;49]%N.  Definition who_b1 : bytes := [98]%N.
+Definition mode_burst (i : list bytes) : bool := beq (get i 5) [98;117;114;115;116]%N.
+Definition burst_lines (i : list bytes) : list bytes := get i 0 :: skipn 7 i.
+Fixpoint expected_all (ls : list bytes) : option (list lval) :=
+  match ls with
+  | [] => Some []
+  | l :: ls' => match parse l, expected_all ls' with
+                | Ok (Some x), Some t => Some (lval_of_line x :: t)
+                | _, _ => None
+                end
+  end.
+(* k handlers, each with one snapshot per expected value, in order *)
+Fixpoint all2 (vs ss : list lval) : bool :=
+  match vs, ss with
+  | [], [] => true
+  | v :: vs', s :: ss' => C15_ok v [s] && all2 vs' ss'
+  | _, _ => false
+  end.
+Fixpoint burst_ok (vs : list lval) (k : nat) (ss : list lval) : bool :=
+  match k with
+  | O => match ss with [] => true | _ => false end
+  | S k' => all2 vs (firstn (length vs) ss) && burst_ok vs k' (skipn (length vs) ss)
+  end.
 Definition model_C15 (i : list bytes) : list bytes :=
+  if mode_burst i then
+    match expected_all (burst_lines i) with
+    | Some vs => flat_map (fun k => flat_map (render (who_b :: dec_of_N (N.of_nat k))) vs) (seq 0 (get_nat i 3))
+    | None => [tag_bad]
+    end
+  else
   if mode_later i then
     match expected i, expected2 i with
     | Some v1, Some v2 => render who_a0 v1 ++ render who_a1 v1 ++ render who_b1 v2
@@ -96,6 +127,12 @@ Fixpoint dec_snaps (fuel : nat) (o : list bytes) : option (list lval) :=
   end.
 
 Definition oracle_C15 (i o : list bytes) : bool :=
+  if mode_burst i then
+    match expected_all (burst_lines i), dec_snaps (S (length o)) o with
+    | Some vs, Some ss => burst_ok vs (get_nat i 3) ss
+    | _, _ => false
+    end
+  else
   if mode_later i then
     match expected i, expected2 i, dec_snaps (S (length o)) o with
     | Some v1, Some v2, Some [a0; a1; b] => C15_ok v1 [a0; a1] && C15_ok v2 [b]
